@@ -46,11 +46,13 @@ func (x *task) addEdge(y *task) {
 		x.edges = make(map[*task]unit)
 	}
 	x.edges[y] = unit{}
+	verifTask("addedge", x, y)
 }
 
 // markDone changes the task's state to markDone.
 func (x *task) markDone() {
 	if x != nil {
+		verifTask("markdone", x, nil)
 		close(x.done)
 	}
 }
@@ -78,11 +80,14 @@ func (x *task) wait() {
 	enqueued := map[*task]unit{x: {}}
 	for i := 0; i < len(work); i++ {
 		u := work[i]
+		verifTask("waitvisit?", x, u)
 		if u.isTransitivelyDone() { // already transitively done
+			verifTask("waitskip", x, u)
 			work[i] = nil
 			continue
 		}
 		<-u.done // wait for u to be marked done.
+		verifTask("waitvisit", x, u)
 
 		for v := range u.edges {
 			if _, ok := enqueued[v]; !ok {
@@ -95,6 +100,7 @@ func (x *task) wait() {
 	// work is transitively closed over dependencies.
 	// u in work is done (or transitively done and skipped).
 	// u is transitively done.
+	verifTask("waitreturn", x, nil)
 	for _, u := range work {
 		if u != nil {
 			x.transitive.Store(true)
